@@ -11,7 +11,7 @@ func c11Profiles(tier string) []Profile {
 	if tier == "thorough" {
 		d = 6
 	}
-	p := &SeqProfile{Name: "copyto", Keys: [][]byte{kA, kB, kC}, Depth: d, Mon: harness.Monitors{Append: true, Format: true},
+	p := &SeqProfile{Name: "copyto", Keys: [][]byte{kA, kB, kC}, Depth: d, Mon: harness.Monitors{Append: true, Format: true}, MapOrders: true,
 		Finish: func(w *harness.World) {
 			src := -1
 			if harness.Choose(2, harness.ClassOp) == 1 {
